@@ -229,7 +229,8 @@ size_t Decode(const char *base64_ptr, size_t base64_len, void *raw_data_ptr, siz
         if (c == BASE64_PAD)
             break;
 
-        uint8_t v = base64de[int(c)];
+        //! bytes outside the table (>= 0x80; char may be signed) are invalid
+        uint8_t v = (static_cast<unsigned char>(c) < sizeof(base64de)) ? base64de[static_cast<unsigned char>(c)] : 255;
         if (v == 255)
             return 0;
 
@@ -274,7 +275,8 @@ size_t Decode(const std::string &base64_str, std::vector<uint8_t> &raw_data)
         if (c == BASE64_PAD)
             break;
 
-        uint8_t v = base64de[int(c)];
+        //! bytes outside the table (>= 0x80; char may be signed) are invalid
+        uint8_t v = (static_cast<unsigned char>(c) < sizeof(base64de)) ? base64de[static_cast<unsigned char>(c)] : 255;
         if (v == 255)
             return 0;
 
